@@ -575,6 +575,11 @@ class Gen:
                         continue
                     raise Undecided('lost anchor: closure %d of fn %s (found %d)' % (k, label, len(cl)))
                 a, b = cl[k - 1]
+                # a source closure with an explicit return type `|x: T| -> R { .. }`: the contract header carries its own
+                # `-> (name: R)`, so the source's return type annotation is part of what is replaced
+                mret = re.match(r'\s*->\s*[^{]+', bmask[b:])
+                if mret and '->' in rep:
+                    b = b + mret.end()
                 if k in hoist:
                     # R2h: the closure is let-bound at the start of the body under a fresh name (it may only
                     # mention parameters), so ghost code can refer to it; the call site gets the name.
@@ -736,6 +741,14 @@ class Gen:
         if opts.get('async_erase'):
             for m in re.finditer(r'\s*\.\s*await\b', bmask):
                 edits.append((m.start(), m.end(), '', 'R4'))
+        # R11 (`| closure_arrays`): `let [a, b] = [f; 2];` - an array of copies of one (Copy) closure taken apart again -
+        #      becomes `let a = f; let b = f;` (array-repeat of closures and array patterns are outside the verifier)
+        if opts.get('closure_arrays'):
+            for m in re.finditer(r'let\s*\[([\w\s,]+)\]\s*=\s*\[\s*(\w+)\s*;\s*(\d+)\s*\]\s*;', bmask):
+                names = [x.strip() for x in m.group(1).split(',') if x.strip()]
+                if len(names) != int(m.group(3)):
+                    raise Undecided('unsupported construct: closure array of %s names and length %s in fn %s' % (len(names), m.group(3), label))
+                edits.append((m.start(), m.end(), ' '.join('let %s = %s;' % (nm, m.group(2)) for nm in names), 'R11'))
         if opts.get('mut_self'):
             edits.append((1, 1, ' let mut vx_self = self; ', 'R10'))
             for m in re.finditer(r'\bself\b', bmask):
